@@ -453,6 +453,71 @@ def rt (T : List Desc) : Nat → Shape → JV → Res JV
   | 0, _, _ => .error .fuel
   | n + 1, s, v => rtStep T (rt T n) s v
 
+/-! ### scope of the deep stability theorem -/
+
+/-- a `$ref` member, where there is one, is a non-empty string -/
+def refOK (o : Obj) : Bool :=
+  match lookup "$ref" o with
+  | none => true
+  | some (.str s) => s != ""
+  | some _ => false
+
+mutual
+/-- No object anywhere in the document is changed by the date-trimming statement (exclusion class
+    DateExampleTrim, applied at every depth and whatever the object's kind), and every `$ref` member is a
+    non-empty string. -/
+def JV.clean : JV → Bool
+  | .arr xs => cleanL xs
+  | .obj kvs => !trimmable kvs && refOK kvs && cleanO kvs
+  | _ => true
+def cleanL : List JV → Bool
+  | [] => true
+  | x :: r => x.clean && cleanL r
+def cleanO : List (String × JV) → Bool
+  | [] => true
+  | (_, v) :: r => v.clean && cleanO r
+end
+
+/-- neither null nor an empty list / object -/
+def JV.nonEmpty (v : JV) : Bool := !(v.isNull || v.isEmptyColl)
+
+/-- shapes whose values are collections (or plain JSON): a non-empty one stays non-empty in the round trip -/
+def collShape : Shape → Bool
+  | .leaf => true
+  | .list _ => true
+  | .map _ => true
+  | .pmap _ => true
+  | .types => true
+  | _ => false
+
+/-- the child shape fits the Go type class of the field (what the guards of the marshaller rely on) -/
+def tcShapeOK : TC → Shape → Bool
+  | .str, s => s == .leaf
+  | .bool, s => s == .leaf
+  | .uint, s => s == .leaf
+  | .iface, s => s == .leaf
+  | .ptypes, s => s == .types
+  | .slice, .leaf => true
+  | .slice, .list _ => true
+  | .map, .leaf => true
+  | .map, .map _ => true
+  | .nmap, .pmap _ => true
+  | .ptr, s => s != .types
+  | .value, s => s != .types
+  | .addProps, s => s == .addProps
+  | _, _ => false
+
+/-- side conditions of the deep stability theorem on one row of the table (decidable; `by decide` over the
+    regenerated table): struct kinds agree, child shapes fit the type classes, the post-processing reads plain
+    fields; wrappers and aliases do not stand for a bare type list -/
+def Desc.deepOK (d : Desc) : Bool :=
+  d.valueShape != .types &&
+  match d.template with
+  | .struct =>
+    structAgree d && d.fields.all (fun f => tcShapeOK f.tc f.shape) &&
+    (d.post.isEmpty || d.fields.all (fun f => !(f.key == "format" || f.key == "example") || f.shape == .leaf))
+  | _ => true
+
 /-! ### deep normal form (spec side): follows the shape grammar, not the marshallers -/
 
 def allStr : List JV → Bool
